@@ -9,7 +9,7 @@ func init() {
 
 	register(&PropDef{
 		ID: "C01", Title: "BGZF write→read round trip is lossless for every write pattern and setting", Level: "other",
-		Rules: append(writerRules("W1", "W2", "W3", "W4", "W5", "W8"),
+		Rules: append(append(writerRules("W1", "W2", "W3", "W4", "W5", "W8"), readerRules("R1", "R2", "R3", "R6")...),
 			RuleDef{Name: "CUR-WRITE", What: "Writer.Write: bytes copied advance the source slice, the block cursor and the returned count together; the copy lands at the cursor", Floor: 1, Run: ruleCurWrite},
 			RuleDef{Name: "OWN-WRITE-ARG", What: "Writer.Write only measures, reslices and copies from its argument (shared with C08)", Floor: 1, Run: ruleWriteArgOwned},
 			RuleDef{Name: "SHARED-STATE", What: "package bgzf keeps no state that one Writer or Reader writes and another reads (shared with C08): a round trip does not depend on what other writers and readers of the process did", Floor: 8, Run: ruleSharedState([]string{"bgzf"})},
@@ -19,6 +19,9 @@ func init() {
 			RuleDef{Name: "MEMBER-ACCEPT", What: "bgzf nextBlockAt hands every member that readMember read without error to the decompressor: the reader refuses nothing the writer's BSIZE admits (added after eighth-round seed C01-j: a bound on the deflate stream's length that incompressible data exceeds)", Floor: 1, Run: ruleMemberAccept},
 			RuleDef{Name: "PATH-NEED", What: "the reader accepts every member size a conforming writer can produce (1..MaxBlockSize) and classifies 0 / negative / missing BSIZE", Floor: 1, Run: ruleNeed},
 			RuleDef{Name: "PATH-READFULL", What: "member body = exactly BSIZE+1 minus consumed header bytes", Floor: 2, Run: ruleReadFull},
+			RuleDef{Name: "GEN-BIND", What: "read-ahead generations: a result read for the latest instruction never looks stale (shared with C02, C03, C09: reading back with rd > 1 returns)", Floor: 2, Run: ruleGenBind},
+			RuleDef{Name: "FAILED-CURRENT", What: "nextBlock makes the failed block current before it returns its error – the end of the data included (shared with C02, C09)", Floor: 1, Run: ruleFailedCurrent},
+			RuleDef{Name: "ERR-OVERWRITE", What: "a possibly failing store to Reader.err is read before the field is assigned again (shared with C09: io.EOF is such a store)", Floor: 2, Run: ruleErrOverwrite},
 			RuleDef{Name: "PATH-LASTCHUNK", What: "Read/ReadByte skip every empty member (emptiness re-tested after each block change) before consuming", Floor: 2, Run: ruleLastChunk}),
 		Explanation: "Decides the parts of the round trip that hold by construction for every concurrency and schedule: the hand-off protocol that makes the order of members in the file the order of Write calls (W1–W5, W8: each block is queued once, compressed once, emitted by the single emitter in queue order, all three submission sites), the cursor accounting in Write (CUR-WRITE) and in the reader's offset counter (CUR-COUNT, which NextBase/seek arithmetic rests on), the BSIZE framing pair in the bit domain (BIT-BSIZE) and the size constants (TAB-BGZF: a full block always fits a member).",
 		NotDecided:  "that the split arithmetic in Write loses or duplicates no byte for every length, inflate(deflate(x)) = x, and the reader's walk over members – value-level.",
